@@ -238,6 +238,28 @@ class Arr:
     def copy(self):
         return fresh_copy(self)
 
+    # in-place methods write through to the buffer (A5): each is a store for the frame ledger
+    def sort(self, axis=-1, kind=None):
+        from .models import NP
+        cur().on_store(self)
+        r = NP.sort(self, axis=(0 if self.ndim == 2 and axis in (0,) else axis))
+        store_array(self, tuple(slice(None) for _ in self.shape), r)
+
+    def fill(self, value):
+        store_array(self, tuple(slice(None) for _ in self.shape), value)
+
+    def _inplace_unmodelled(self, what):
+        cur().on_store(self)
+        raise Unsupported("in-place ndarray.%s (recorded as a store into the buffer)" % what)
+
+    def partition(self, *a, **k): self._inplace_unmodelled("partition")
+    def resize(self, *a, **k): self._inplace_unmodelled("resize")
+    def put(self, *a, **k): self._inplace_unmodelled("put")
+    def itemset(self, *a, **k): self._inplace_unmodelled("itemset")
+    def setfield(self, *a, **k): self._inplace_unmodelled("setfield")
+    def setflags(self, *a, **k): self._inplace_unmodelled("setflags")
+    def byteswap(self, inplace=False): self._inplace_unmodelled("byteswap")
+
     def astype(self, dt, copy=True):
         return astype(self, dt)
 
